@@ -311,9 +311,46 @@ func ruleR1() *Rule {
 					props = []string{"C10", "C11"}
 				}
 				a := &poolAnalysis{p: c.p, pool: pool, summ: map[string]putSummary{}, running: map[string]bool{}}
+				// get wrappers: functions that do nothing with the pool but hand
+				// out what Get returned (`func acquireCtx() *T { return pool.Get().(*T) }`)
+				wrappers := map[*ssa.Function]bool{}
 				for _, fn := range c.p.ZapFuncs {
+					if fn.Parent() != nil || len(fn.Blocks) == 0 || fn.Signature.Results().Len() != 1 {
+						continue
+					}
+					isW, hasPut := true, false
+					for _, cs := range callSites(fn) {
+						if g, op := poolOp(cs); g == pool && op == "Put" {
+							hasPut = true
+						}
+					}
+					rets := returnsOf(fn)
+					if hasPut || len(rets) == 0 {
+						continue
+					}
+					for _, ret := range rets {
+						call, ok := root(ret.Results[0]).(*ssa.Call)
+						if !ok {
+							isW = false
+							break
+						}
+						if g, op := poolOp(call); g != pool || op != "Get" {
+							isW = false
+						}
+					}
+					if isW {
+						wrappers[fn] = true
+					}
+				}
+				for _, fn := range c.p.ZapFuncs {
+					if wrappers[fn] {
+						continue // judged at its call sites
+					}
 					for _, cs := range callSites(fn) {
 						g, op := poolOp(cs)
+						if f := staticCallee(cs); f != nil && wrappers[f] {
+							g, op = pool, "Get"
+						}
 						if g != pool {
 							continue
 						}
